@@ -283,6 +283,8 @@ def worker(outdir, k):
                     if killed:
                         res['outcome'] = 'killed'
                         res['killed_by'] = killed
+                    elif c.get('skip_suite'):
+                        res['outcome'] = 'SURVIVED' if all(v['exit'] == 0 for v in res['checks'].values()) else 'inconclusive'
                     else:
                         rc, out = sh('cargo test --offline --workspace --no-fail-fast 2>&1 | grep "^test result" | '
                                      "awk '{p+=$4; f+=$6} END {print p, f}'", cwd=REPO, timeout=3000)
@@ -314,6 +316,25 @@ def report(outdir):
                                                                  ','.join(r['props']), r['old'].strip(), r['new'].strip()))
 
 
+def recheck(outdir):
+    """second phase: every survivor is run against all the other properties' checks"""
+    allp = ['C%02d' % i for i in range(1, 21)]
+    n = 0
+    for f in sorted(glob.glob(os.path.join(outdir, 'results', '*.json'))):
+        r = json.load(open(f))
+        if r['outcome'] != 'SURVIVED' or r['id'].endswith('r'):
+            continue
+        if os.path.exists(os.path.join(outdir, 'results', r['id'] + 'r.json')):
+            continue
+        j = {k: r[k] for k in ('file', 'line', 'fn', 'op', 'old', 'new')}
+        j['id'] = r['id'] + 'r'
+        j['props'] = [p for p in allp if p not in r['props']]
+        j['skip_suite'] = True
+        json.dump(j, open(os.path.join(outdir, 'jobs', j['id'] + '.json'), 'w'), indent=1)
+        n += 1
+    print('recheck jobs', n)
+
+
 if __name__ == '__main__':
     cmd = sys.argv[1]
     if cmd == 'gen':
@@ -322,5 +343,7 @@ if __name__ == '__main__':
         run(sys.argv[2], int(sys.argv[3]))
     elif cmd == 'worker':
         worker(sys.argv[2], int(sys.argv[3]))
+    elif cmd == 'recheck':
+        recheck(sys.argv[2])
     elif cmd == 'report':
         report(sys.argv[2])
